@@ -2,6 +2,7 @@
 C15 static-scope soundness: builtin commands and function calls.
 -/
 import ElvProofs.C15.SoundExpr
+import ElvProofs.C15.PureWf
 set_option linter.unusedSimpArgs false
 set_option linter.unusedVariables false
 namespace C15
@@ -57,6 +58,25 @@ theorem orderVals (rev : Bool) (vs : List Value) : Keeps s0 VsWf (orderVals rev 
     | exact pure (VsWf.reverse (VsWf.map_of (fun _ => by constructor)))
     | exact pure (VsWf.map_of (fun _ => by constructor))
 
+theorem liftP {r : PRes} (h : PWf r) : Keeps s0 VsWf (liftP r) := by
+  cases r with
+  | vals vs => exact pure h
+  | err e => exact throw h
+  | unsup w => exact unsupp
+
+/-- The pure builtins of `ElvModel/C15/Builtins.lean`. -/
+theorem callPure (name : String) {args : List Value} (ha : VsWf args) (on : List String) :
+    Keeps s0 (fun _ => True) (callPure name args on) := by
+  unfold C15.callPure
+  refine bind (noOpts on) (fun _ _ => ?_)
+  split
+  · exact bind (inputsOf ha) (fun vs hvs => emit (compact_wf hvs))
+  · exact bind (inputsOf ha) (fun vs hvs => bind (liftP (makeMap_wf hvs)) (fun o ho => emit ho))
+  · split
+    · exact bind (intArg _) (fun n _ => emit (replicate_wf _ ha.tail.head))
+    · exact throwC (by decide)
+  · exact bind (liftP (argBuiltin_wf name ha)) (fun o ho => emit ho)
+
 theorem recEachLoop {f : Value} {items : List Value} (hf : VWf f) (hi : VsWf items) :
     Keeps s0 VsWf (C15.rec (.eachLoop f items)) :=
   Keeps.rec (.eachLoop f items) [] false (fun s _ hp => ⟨hf, hi⟩) (fun _ _ _ h => h)
@@ -86,6 +106,7 @@ macro "kb1" : tactic => `(tactic| first
   | exact Keeps.takeInput
   | exact Keeps.inputsOf (by vswf)
   | exact Keeps.orderVals _ _
+  | exact Keeps.callPure _ (by assumption) _
   | exact Keeps.emit (rangeVals_wf _ _ _)
   | exact Keeps.emit (by vswf)
   | exact Keeps.liftE (lengthOf_ok _)
@@ -98,11 +119,25 @@ macro "kb1" : tactic => `(tactic| first
   | dsimp only)
 
 attribute [local irreducible] noOpts numArgs intArg inputsOf orderVals emit takeInput liftE throwE
-  unsupported C15.rec lengthOf rangeVals Keeps in
+  unsupported C15.rec lengthOf rangeVals Keeps callPure in
+theorem keeps_callBuiltinBody {name : String} {args : List Value} (ha : VsWf args) (on : List String)
+    {ov : List Value} (ho : VsWf ov) : Keeps s0 (fun _ => True) (callBuiltinBody name args on ov) := by
+  unfold callBuiltinBody
+  split
+  all_goals (repeat' kb1)
+
+theorem Keeps.precheck (name : String) (args : List Value) (on : List String) :
+    Keeps s0 (fun _ => True) (precheck name args on) := by
+  unfold C15.precheck
+  split
+  · exact Keeps.throwC (by decide)
+  · split
+    · exact Keeps.throwC (by decide)
+    · exact Keeps.pure trivial
+
 theorem keeps_callBuiltin {name : String} {args : List Value} (ha : VsWf args) (on : List String)
     {ov : List Value} (ho : VsWf ov) : Keeps s0 (fun _ => True) (callBuiltin name args on ov) := by
   unfold callBuiltin
-  split
-  all_goals (repeat' kb1)
+  exact Keeps.bind (Keeps.precheck name args on) (fun _ _ => keeps_callBuiltinBody ha on ho)
 
 end C15
